@@ -36,7 +36,7 @@ TYPE_CLASS = {
 }
 DEFAULTS = {
     "static": ["7", "-3", "3.5", "hello", "hello world", "2020-01-31", "12:30:00", "jr://images/x.png", "a_b", "Yes and no"],
-    "dynamic": ["now()", "today()", "concat('a', 'b')", "1 + 2", "7 - 2", "3 * 4", "6 div 2", "7 mod 2", "uuid()", "${REF}", "${REF} + 1",
+    "dynamic": ["now()", "today()", "today() - 7", "now() - ${REF}", "${REF} - 1", "date(${REF}) - 30", "decimal-date-time(now()) - 2", "concat('a', 'b')", "1 + 2", "7 - 2", "3 * 4", "6 div 2", "7 mod 2", "uuid()", "${REF}", "${REF} + 1",
                 "if(${REF} = 1, 'a', 'b')", "string-length('abc')"],
     "either": ["a-1", "5-3", "-a", "(x)", "x[1]", "a|b", "a*b", "'q - r'", "1+2"],
 }
@@ -70,10 +70,40 @@ def _uniq(n, col):
     return f"v{n}{col[:3].replace(':', '')}"
 
 
-def build(shapes, seed=0, mode="binds", formname="data"):
+def _homonymize(shapes, rnd):
+    """Give one question inside a repeat the name of a question outside every repeat (different parent section: names only have to
+    be unique among siblings).  -> (shapes, {the shared name})"""
+    stack, info = [], []
+    for idx, (shape, given) in enumerate(shapes):
+        name = given or f"n{idx + 2}"
+        if shape in ("blank", "audit", "note_noname"):
+            continue
+        if shape in ("end_group", "end_repeat"):
+            if stack:
+                stack.pop()
+            continue
+        if shape.startswith("begin"):
+            stack.append((idx, "repeat" if "repeat" in shape else "group"))
+            continue
+        info.append((idx, name, tuple(i for i, _ in stack), any(k == "repeat" for _, k in stack)))
+    pairs = [(a, b) for a in info if not a[3] for b in info if b[3] and a[2] != b[2]]
+    if not pairs:
+        return shapes, set()
+    a, b = rnd.choice(pairs)
+    shapes = list(shapes)
+    shapes[b[0]] = (shapes[b[0]][0], a[1])
+    return shapes, {a[1]}
+
+
+def build(shapes, seed=0, mode="binds", formname="data", homonyms=False):
     """mode: 'binds' (C05) or 'defaults' (C10). Returns (wb, src)."""
     shapes = [(s, "") if isinstance(s, str) else (s[0], s[1]) for s in shapes]
     rnd = random.Random(f"L{seed}:{mode}:{shapes}")
+    dups = set()
+    if homonyms:
+        # (the row number n of every row is unchanged: unique cell values still derive from it)
+        shapes = [(s, g or f"n{i + 2}") for i, (s, g) in enumerate(shapes)]
+        shapes, dups = _homonymize(shapes, rnd)
     f = LForm(rnd)
     n = 1
     lists_used = set()
@@ -194,7 +224,7 @@ def build(shapes, seed=0, mode="binds", formname="data"):
                 row["parameters"] = params
                 attrs.append(["type", btype, "lit"])
             # a trigger cell moves the calculation into a setvalue action; every other logic cell stays on the bind
-            if f.visible and shape in ("text", "typed", "calc") and rnd.random() < 0.2:
+            if f.visible and shape in ("text", "typed", "calc") and rnd.random() < 0.2 and name not in dups:   # (homonymous trigger targets: C10's subject)
                 tname, tpath = rnd.choice(f.visible)
                 row["trigger"] = "${" + tname + "}"
                 if f.hdr("calculate") not in row:
@@ -233,7 +263,7 @@ def build(shapes, seed=0, mode="binds", formname="data"):
         if attrs:
             f.binds.append([path, attrs])
         f.rows.append(row)
-        if not is_section:
+        if not is_section and path[-1] not in dups:      # (a ${reference} to a name that occurs twice would be ambiguous)
             f.qnames.append(path[-1])
             if shape in ("text", "typed", "sel1", "selm", "range", "trigger") and "label" in row and "trigger" not in row and f.hdr("calculate") not in row:
                 f.visible.append((path[-1], path))
